@@ -80,10 +80,12 @@ pub enum Ev {
     J2(bool),
     Uio(u8, bool),
     ToggleStep,
+    LoadRaw(u8),
+    ResetRam,
 }
 
 fn stimuli() -> Vec<Ev> {
-    let mut v = vec![Ev::Edge, Ev::KeyClock, Ev::Interrupt, Ev::Continue, Ev::CpuReset, Ev::MasterReset, Ev::ToggleStep];
+    let mut v = vec![Ev::Edge, Ev::KeyClock, Ev::Interrupt, Ev::Continue, Ev::CpuReset, Ev::MasterReset, Ev::ToggleStep, Ev::LoadRaw(0), Ev::LoadRaw(240), Ev::ResetRam];
     for i in 0..4 {
         v.push(Ev::Input(i, 0x00));
         v.push(Ev::Input(i, 0xFF));
@@ -148,6 +150,12 @@ fn apply(m: &mut Machine, e: Ev) {
             let n = if m.step_mode() == StepMode::Real { StepMode::Assembly } else { StepMode::Real };
             m.set_step_mode(n)
         }
+        Ev::LoadRaw(n) => {
+            let bytes: Vec<u8> = (0..n as usize).map(|i| (i as u8).wrapping_mul(29) ^ 0xF1).collect();
+            #[allow(deprecated)]
+            m.load_raw(bytes.iter());
+        }
+        Ev::ResetRam => m.raw_mut().bus_mut().reset_ram(),
     }
 }
 
